@@ -162,6 +162,8 @@ def check_case(root, spec, pp, cfg, out, armed, excl=None):
                             ids = K.path_classes(pp, rel, kw, bool(m), R.MUSTNOT if m else R.MUST, text)
                             if m and isinstance(pp.segs[-1], str) and pp.trail and not os.path.isdir(rel):
                                 ids.add('K16')
+                            if m and rel.endswith('\n'):
+                                ids.add('K33')      # match() always has the implicit prefix, hence a globstar divider
                             if not m:
                                 comps = rel.split('/')
                                 lf = C06.link_flags(os.getcwd(), comps)
